@@ -94,6 +94,14 @@ STAGE_SECONDS = 300
 STAGE_SECONDS_AFTER_HANG = 30
 
 
+def exc_where(e: BaseException) -> str:
+    """' raised in <function> (math.py:<line>)' for an exception that came out of srctools/math.py, else ''."""
+    import traceback
+    tb = traceback.extract_tb(e.__traceback__)
+    w = next((f'{f.name} (math.py:{f.lineno})' for f in reversed(tb) if f.filename.endswith('math.py')), None)
+    return f' raised in {w}' if w else ''
+
+
 class StageTimeout(BaseException):      # not an Exception: the `except Exception` of the oracles must not swallow it
     pass
 
@@ -108,10 +116,13 @@ def guarded(ck: Ck, found: dict, stage: str, fn, *args) -> bool:
     import traceback
     _CURRENT[0] = None
     old = signal.signal(signal.SIGALRM, _on_alarm)
+    import time
     limit = STAGE_SECONDS_AFTER_HANG if any(k.startswith('hang:') for k in found) else STAGE_SECONDS
+    t0 = time.time()
     signal.alarm(limit)
     try:
         fn(*args)
+        ck.extra.setdefault('stage_seconds', {})[stage] = round(time.time() - t0, 1)     # evidence only, never compared
         return True
     except StageTimeout:
         key, what = f'hang:{stage}', f'stage {stage}: a call into srctools.math did not return within {limit} s'
@@ -623,7 +634,7 @@ def check_triple(form: str, lc: str, rc: str, alias: bool, vl: dict, vr: dict) -
     try:
         ob = observe(form, lc, rc, alias, vl, vr)
     except Exception as e:             # noqa: BLE001 - any exception on a supported pair is a finding
-        return [('exception', f'{type(e).__name__}: {e}')]
+        return [('exception', f'{type(e).__name__}: {e}{exc_where(e)}')]
     probs: list[tuple[str, str]] = []
     if ob['kind'] == 'none':
         if form != 'rmatmul':
@@ -870,7 +881,7 @@ def composed_problem(a: tuple, b: tuple, form: str) -> tuple[str, str] | None:
             ang = Angle(*a)
             ang @= Matrix.from_angle(*b)
     except Exception as e:      # noqa: BLE001 - every exception on a valid rotation is a finding
-        return 'exception', f'{form}: converting from_angle{a} @ from_angle{b} to an Angle raised {type(e).__name__}: {e}'
+        return 'exception', f'{form}: converting from_angle{a} @ from_angle{b} to an Angle raised {type(e).__name__}: {e};{exc_where(e)}'
     m = mat_list(M)
     if maxdiff(ref_mul(m, ref_T(m)), [[1, 0, 0], [0, 1, 0], [0, 0, 1]]) > TOL:
         return None         # not a rotation up to rounding: reported by the other identities
@@ -982,7 +993,7 @@ def inplace_op_problems(iname: str, pname: str, lc: str, rc: str, vl: dict, vr: 
         try:
             res = getattr(operator, iname)(x, y)
         except Exception as e:          # noqa: BLE001
-            return [('exception', f'x {iname} y raised {type(e).__name__}: {e} although the pure operator returns {pure!r}')]
+            return [('exception', f'x {iname} y raised {type(e).__name__}: {e} although the pure operator returns {pure!r};{exc_where(e)}')]
     probs: list[tuple[str, str]] = []
     mutable_l = lc in ('Vec', 'Angle', 'Matrix')
     if type(res).__name__ != lc:
@@ -1058,7 +1069,7 @@ def inplace_method_problems(name: str, rc: str, vl: dict, vr: dict) -> list[tupl
                 if not e <= TOL * scale:
                     probs.append(('value', f'after {name} the receiver differs from the pure form by {e:.3g}'))
     except Exception as e:      # noqa: BLE001
-        return [('exception', f'{name} raised {type(e).__name__}: {e}')]
+        return [('exception', f'{name} raised {type(e).__name__}: {e};{exc_where(e)}')]
     if R is not None and [bits(x) for x in snapshot(R)] != [bits(x) for x in sR]:
         probs.append(('operand-mutated', f'{name} changed its rotation argument from {sR} to {snapshot(R)}'))
     return probs
@@ -1551,6 +1562,7 @@ def run(ck: Ck) -> None:
         ck.explain('translate:RotInplace_gen')
     if any(k.startswith('inverse-') for k in keys):
         ck.explain('instance:inverse_')
+        ck.explain('correspondence:inverse')
         # the translator could not read inverse() (fail closed) AND the search exhibits a concrete wrong inverse
         ck.explain('translate:RotInverse_gen')
     # a changed _vec_rot / _mat_mul tree changes its error bound too: explained by the concrete wrong value
@@ -1558,7 +1570,10 @@ def run(ck: Ck) -> None:
                      ('from_angle', 'instance:from_angle_')):
         if any(k.startswith(FUNCTION_EXPLAINED_BY[fn]) for k in keys):
             ck.explain(pref)
-    explain_translate(ck, keys)
+    explain_translate(ck, keys, found)
+    if any(k.startswith('hang:') for k in keys):
+        # a loop the translators refuse to read (fail closed) and a concrete input on which the implementation does not return
+        ck.explain('translate:Rot')
     explain_build(ck, keys)
 
 
@@ -1568,6 +1583,9 @@ TO_ANGLE_KEYS = ('euler-roundtrip', 'gimbal-bound', 'composed-roundtrip', 'assoc
 # as explained only when the search exhibits a concrete failing input of an identity that goes through that function.
 FUNCTION_EXPLAINED_BY = {
     '_to_angle': TO_ANGLE_KEYS,
+    # the dispatch executor could not follow an operator method: explained by a concrete wrong outcome of some operator form
+    'dispatch': ('value-mismatch', 'not-in-place', 'left-operand-mutated', 'right-operand-mutated', 'result-not-fresh',
+                 'unsupported', 'exception:', 'result-kind', 'inplace-'),
     '_mat_mul': ('assoc-matrix', 'value-mismatch:Matrix', 'convention-own-factors'),
     '_vec_rot': ('assoc-vec-matrix', 'value-mismatch:Vec', 'value-mismatch:FrozenVec', 'value-mismatch:tuple'),
     'transpose': ('transpose-formula', 'inverse-vs-transpose'),
@@ -1576,12 +1594,16 @@ FUNCTION_EXPLAINED_BY = {
 }
 
 
-def explain_translate(ck: Ck, keys: set) -> None:
+def explain_translate(ck: Ck, keys: set, found: dict | None = None) -> None:
     for o in ck.obligations:
         if o['ok'] or not o['name'].startswith('translate:Rot'):
             continue
         m = re.search(r'translator failed closed: ([A-Za-z_]+)[:>]', o['detail'])
         if m and m.group(1) in FUNCTION_EXPLAINED_BY and any(k.startswith(FUNCTION_EXPLAINED_BY[m.group(1)]) for k in keys):
+            o['explained'] = True
+        # the function the translator could not read raises / hangs on a concrete input (traceback names it)
+        if m and found and any(f' raised in {m.group(1)} (' in w for k, (w, _r) in found.items()
+                               if k.startswith('exception') or ':exception' in k or '-exception' in k):
             o['explained'] = True
 
 
